@@ -218,8 +218,8 @@ theorem Static.bump {binds : Array Binding} (hs : Static binds) {i : Nat} {b : B
   · simp only [hij, if_false] at hx
     exact hs j x hx e he
 
-@[simp] theorem offers_say_offer (st : St) (k : Kind) (w : WinTree.Id) (e : Ev) :
-    offers (st.say (.offer k w e)).log = offers st.log ++ [(k, w, e)] := rfl
+@[simp] theorem offers_say_offer (st : St) (k : Kind) (w : WinTree.Id) (e : Ev) (b : Bool) :
+    offers (st.say (.offer k w e b)).log = offers st.log ++ [(k, w, e)] := rfl
 
 @[simp] theorem offers_say_call (st : St) (k : Kind) (w : WinTree.Id) (i j : Nat) (r : Bool) (e : Ev) :
     offers (st.say (.call k w i j r e)).log = offers st.log := rfl
@@ -254,7 +254,7 @@ theorem runHandlers_static (kind : Kind) (win : WinTree.Id) (ev : Ev) (st : St) 
       Static st'.binds ∧ offers st'.log = offers st.log ++ [(kind, win, ev)] ∧ (st'.binds, c) = offerOne st.binds kind win := by
   unfold runHandlers offerOne
   obtain ⟨st', c, h1, h2, h3, h4, h5, h6⟩ :=
-    runBindings_static kind win ev (bindingsOf st.binds kind win) (st.say (.offer kind win ev)) hs
+    runBindings_static kind win ev (bindingsOf st.binds kind win) (st.say (.offer kind win ev _)) hs
   exact ⟨st', c, h1, h2, h3, h4, by simpa using h5, h6⟩
 
 /-! ### what does not depend on reference counts -/
@@ -1099,7 +1099,7 @@ theorem mouseOwn_static {st st' : St} {win : WinTree.Id} {ev : Ev} {r : Option W
     (hvis : isShown st.tree (treeFuel st.tree) win = Res.ok true)
     (h : mouseOwn Cfg.repaired st win ev = Out.ok (st', r)) : Frame st st' ∧ SegM st [(win, ev)] st' r := by
   unfold mouseOwn ownVisible at h
-  simp only [Cfg.repaired, if_true, hvis, lift_ok, out_bind_ok] at h
+  simp only [Cfg.repaired, if_true, hvis, lift_ok, out_bind_ok, Bool.not_true, Bool.false_eq_true, if_false] at h
   obtain ⟨st'', c, h1, h2, h3, h4, h5, h6⟩ := runHandlers_static .mouse win ev st hs
   rw [h1] at h
   simp only [lift_ok, out_bind_ok] at h
@@ -1107,7 +1107,7 @@ theorem mouseOwn_static {st st' : St} {win : WinTree.Id} {ev : Ev} {r : Option W
   have hc : c = (offerOne st.binds .mouse win).2 := by rw [← h6]
   cases c with
   | false =>
-    simp only [Bool.false_eq_true, if_false, out_pure, Out.ok.injEq, Prod.mk.injEq] at h
+    simp only [Bool.not_false, if_true, out_pure, Out.ok.injEq, Prod.mk.injEq] at h
     obtain ⟨rfl, rfl⟩ := h
     refine ⟨⟨by rw [h2]; exact Le.refl _, h3, h4⟩, ?_⟩
     refine ⟨?_, ?_, ?_⟩ <;> simp only [offerAll_single, ← hc]
@@ -1115,7 +1115,7 @@ theorem mouseOwn_static {st st' : St} {win : WinTree.Id} {ev : Ev} {r : Option W
     · exact h5
     · rfl
   | true =>
-    simp only [if_true] at h
+    simp only [Bool.not_true, Bool.false_eq_true, if_false] at h
     obtain ⟨st3, h3', h⟩ := lift_bind_eq_ok.1 h
     simp only [out_pure, Out.ok.injEq, Prod.mk.injEq] at h
     obtain ⟨rfl, rfl⟩ := h
@@ -1233,6 +1233,429 @@ theorem handleMouse_static : ∀ (f : Nat), MouseRecOK (handleMouse Cfg.repaired
   induction f with
   | zero => intro st win ev st' r _ _ h; simp [handleMouse] at h
   | succ f ih => exact handleMouseBody_static ih f
+
+/-! ### what a dispatch adds to the log, whatever the handlers do -/
+
+/-- `st'` extends the log of `st` by items that all satisfy `P`. -/
+def Ext (P : LogItem → Prop) (st st' : St) : Prop := ∃ new, st'.log = new ++ st.log ∧ ∀ i ∈ new, P i
+
+theorem Ext.refl (P : LogItem → Prop) (st : St) : Ext P st st := ⟨[], rfl, by simp⟩
+
+theorem Ext.of_log {P : LogItem → Prop} {st st' : St} (h : st'.log = st.log) : Ext P st st' := ⟨[], by simpa using h, by simp⟩
+
+theorem Ext.trans {P : LogItem → Prop} {a b c : St} (h1 : Ext P a b) (h2 : Ext P b c) : Ext P a c := by
+  obtain ⟨n1, e1, p1⟩ := h1
+  obtain ⟨n2, e2, p2⟩ := h2
+  refine ⟨n2 ++ n1, by rw [e2, e1, List.append_assoc], ?_⟩
+  intro i hi
+  rcases List.mem_append.1 hi with h | h
+  · exact p2 i h
+  · exact p1 i h
+
+theorem Ext.say {P : LogItem → Prop} (st : St) {i : LogItem} (h : P i) : Ext P st (st.say i) :=
+  ⟨[i], rfl, by simpa using h⟩
+
+/-- A predicate on log items that the bookkeeping items (destroyed, refused) satisfy. -/
+structure Quiet (P : LogItem → Prop) : Prop where
+  destroyed : ∀ w, P (.destroyed w)
+  refused : ∀ a, P (.refused a)
+
+theorem foldl_destroyed_ext {P : LogItem → Prop} (hq : Quiet P) : ∀ (gone : List WinTree.Id) (s0 : St),
+    Ext P s0 (gone.foldl (fun st i => st.say (.destroyed i)) s0) := by
+  intro gone
+  induction gone with
+  | nil => intro s0; exact Ext.refl _ _
+  | cons g rest ih => intro s0; exact (Ext.say s0 (hq.destroyed g)).trans (ih _)
+
+theorem unrefLogged_ext {P : LogItem → Prop} (hq : Quiet P) {st st' : St} {win : WinTree.Id}
+    (h : unrefLogged st win = Res.ok st') : Ext P st st' := by
+  unfold unrefLogged at h
+  obtain ⟨w, _, h⟩ := res_bind_eq_ok.1 h
+  obtain ⟨t, _, h⟩ := res_bind_eq_ok.1 h
+  by_cases h1 : w.refcount = 1
+  · simp only [h1, if_true, res_pure, Res.ok.injEq] at h
+    subst h
+    exact (Ext.of_log (st' := { st with tree := normalizeDrag t }) rfl).trans (foldl_destroyed_ext hq _ _)
+  · simp only [h1, if_false, res_pure, Res.ok.injEq] at h
+    subst h; exact Ext.of_log rfl
+
+theorem refWin_ext {P : LogItem → Prop} {st st' : St} {win : WinTree.Id} (h : refWin st win = Res.ok st') : Ext P st st' := by
+  obtain ⟨w, _, e⟩ := refWin_eq_ok h
+  subst e; exact Ext.of_log rfl
+
+theorem refAll_ext {P : LogItem → Prop} : ∀ (cs : List WinTree.Id) (st st' : St), refAll st cs = Res.ok st' → Ext P st st' := by
+  intro cs st st' h
+  obtain ⟨_, _, l, _⟩ := refAll_ok cs st st' h
+  exact Ext.of_log l
+
+theorem unrefAll_ext {P : LogItem → Prop} (hq : Quiet P) : ∀ (cs : List WinTree.Id) (st st' : St),
+    unrefAll st cs = Res.ok st' → Ext P st st' := by
+  intro cs
+  induction cs with
+  | nil => intro st st' h; simp only [unrefAll, res_pure, Res.ok.injEq] at h; subst h; exact Ext.refl _ _
+  | cons c rest ih =>
+    intro st st' h
+    simp only [unrefAll] at h
+    obtain ⟨st1, h1, h2⟩ := res_bind_eq_ok.1 h
+    exact (unrefLogged_ext hq h1).trans (ih _ _ h2)
+
+theorem tree_update_ext {P : LogItem → Prop} {st : St} {r : Res Tree} {f : Tree → St} {st' : St}
+    (hf : ∀ t, (f t).log = st.log) (h : (r >>= fun t => pure (f t)) = Res.ok st') : Ext P st st' := by
+  obtain ⟨t, _, h⟩ := res_bind_eq_ok.1 h
+  simp only [res_pure, Res.ok.injEq] at h
+  subst h; exact Ext.of_log (hf t)
+
+theorem doAction_ext {P : LogItem → Prop} (hq : Quiet P) {st st' : St} {a : Action}
+    (h : doAction st a = Res.ok st') : Ext P st st' := by
+  unfold doAction at h
+  by_cases hal : allowed st a = true
+  · simp only [hal, Bool.not_true, Bool.false_eq_true, if_false] at h
+    cases hact : a.act <;> simp only [hact] at h
+    case unref =>
+      exact (Ext.of_log (P := P) (st := st)
+        (st' := { st with owned := st.owned.setIfInBounds a.win (st.owned.getD a.win 0 - 1) }) rfl).trans
+        (unrefLogged_ext hq h)
+    all_goals
+      obtain ⟨t, _, h⟩ := res_bind_eq_ok.1 h
+      simp only [res_pure, Res.ok.injEq] at h
+      subst h; exact Ext.of_log rfl
+  · simp only [hal, Bool.not_false, if_true, res_pure, Res.ok.injEq] at h
+    subst h; exact Ext.say _ (hq.refused a)
+
+theorem doActions_ext {P : LogItem → Prop} (hq : Quiet P) : ∀ (as : List Action) (st st' : St),
+    doActions st as = Res.ok st' → Ext P st st' := by
+  intro as
+  induction as with
+  | nil => intro st st' h; simp only [doActions, res_pure, Res.ok.injEq] at h; subst h; exact Ext.refl _ _
+  | cons a rest ih =>
+    intro st st' h
+    simp only [doActions] at h
+    obtain ⟨st1, h1, h2⟩ := res_bind_eq_ok.1 h
+    exact (doAction_ext hq h1).trans (ih _ _ h2)
+
+theorem runBindings_ext {P : LogItem → Prop} (hq : Quiet P) (kind : Kind) (win : WinTree.Id) (ev : Ev)
+    (hcall : ∀ i n r, P (.call kind win i n r ev)) :
+    ∀ (idxs : List Nat) (st st' : St) (c : Bool), runBindings st kind win ev idxs = Res.ok (st', c) → Ext P st st' := by
+  intro idxs
+  induction idxs with
+  | nil => intro st st' c h; simp only [runBindings, res_pure, Res.ok.injEq, Prod.mk.injEq] at h; rw [← h.1]; exact Ext.refl _ _
+  | cons bi rest ih =>
+    intro st st' c h
+    unfold runBindings at h
+    cases hb : st.binds[bi]? with
+    | none => simp only [hb] at h; exact ih _ _ _ h
+    | some b =>
+      simp only [hb] at h
+      obtain ⟨st1, h1, h⟩ := res_bind_eq_ok.1 h
+      have e0 : Ext P st (({ st with binds := st.binds.setIfInBounds bi { b with count := b.count + 1 } } : St).say
+          (.call kind win b.idx (entryIndex b) b.entry.ret ev)) :=
+        (Ext.of_log (st' := { st with binds := _ }) rfl).trans (Ext.say _ (hcall _ _ _))
+      have e1 := e0.trans (doActions_ext hq _ _ _ h1)
+      by_cases hr : b.entry.ret = true
+      · simp only [hr, if_true, res_pure, Res.ok.injEq, Prod.mk.injEq] at h
+        rw [← h.1]; exact e1
+      · simp only [hr, Bool.false_eq_true, if_false] at h
+        exact e1.trans (ih _ _ _ h)
+
+theorem runHandlers_ext {P : LogItem → Prop} (hq : Quiet P) (kind : Kind) (win : WinTree.Id) (ev : Ev)
+    (hcall : ∀ i n r, P (.call kind win i n r ev)) {st st' : St} {c : Bool}
+    (hoffer : P (.offer kind win ev (visibleChain st.tree (treeFuel st.tree) win)))
+    (h : runHandlers st kind win ev = Res.ok (st', c)) : Ext P st st' := by
+  unfold runHandlers at h
+  exact (Ext.say st hoffer).trans (runBindings_ext hq kind win ev hcall _ _ _ _ h)
+
+/-- Events that differ at most in their position. -/
+def sameKind (e e' : Ev) : Prop := e'.type = e.type ∧ e'.button = e.button ∧ e'.mod = e.mod
+
+theorem sameKind.rfl' (e : Ev) : sameKind e e := ⟨rfl, rfl, rfl⟩
+
+theorem sameKind.toChild {e e' : Ev} (h : sameKind e e') (cw : Win) : sameKind e (e'.toChild cw) := h
+
+/-- A predicate on log items that holds of everything a dispatch of `ev` may log: bookkeeping items, calls and
+    offers of events of the same kind — for an offer only if, with the visibility repair, its ghost bit is set. -/
+structure Routed (cfg : Cfg) (kind : Kind) (ev : Ev) (P : LogItem → Prop) : Prop extends Quiet P where
+  call : ∀ w i n r e, sameKind ev e → P (.call kind w i n r e)
+  offer : ∀ w e b, sameKind ev e → (cfg.shown = true → b = true) → P (.offer kind w e b)
+
+theorem ownHandlers_ext {cfg : Cfg} {kind : Kind} {ev e : Ev} {P : LogItem → Prop} (hp : Routed cfg kind ev P)
+    (he : sameKind ev e) {st st' : St} {win : WinTree.Id} {own c : Bool}
+    (hown : ownVisible cfg st.tree win = Res.ok own) (ho : own = true)
+    (h : runHandlers st kind win e = Res.ok (st', c)) : Ext P st st' := by
+  apply runHandlers_ext hp.toQuiet kind win e (fun i n r => hp.call win i n r e he) _ h
+  apply hp.offer win e _ he
+  intro hs
+  unfold ownVisible at hown
+  simp only [hs, if_true] at hown
+  subst ho
+  exact isShown_ok _ _ _ _ hown
+
+/-! #### keys -/
+
+def KeyRecExt (P : LogItem → Prop) (ev : Ev) (rec : KeyRec) : Prop :=
+  ∀ (st : St) (c : WinTree.Id) (st' : St) (d : Bool), rec st c ev = Out.ok (st', d) → Ext P st st'
+
+theorem firstClaim_ext {P : LogItem → Prop} {a : Out (St × Bool)} {k : St → Out (St × Bool)} {st st2 : St} {d2 : Bool}
+    (h : firstClaim a k = Out.ok (st2, d2))
+    (ha : ∀ st1 d1, a = Out.ok (st1, d1) → Ext P st st1)
+    (hk : ∀ st1, k st1 = Out.ok (st2, d2) → Ext P st1 st2) : Ext P st st2 := by
+  obtain ⟨st1, d1, e, hc⟩ := firstClaim_ok h
+  rcases hc with ⟨_, rfl, _⟩ | ⟨_, hk2⟩
+  · exact ha _ _ e
+  · exact (ha _ _ e).trans (hk _ hk2)
+
+theorem keySteal_ext {P : LogItem → Prop} {ev : Ev} {rec : KeyRec} (hrec : KeyRecExt P ev rec) {st st' : St}
+    {win : WinTree.Id} {d : Bool} (h : keySteal rec st win ev = Out.ok (st', d)) : Ext P st st' := by
+  unfold keySteal at h
+  obtain ⟨w, _, h⟩ := lift_bind_eq_ok.1 h
+  cases hc : w.children.head? with
+  | none => simp only [hc, out_pure, Out.ok.injEq, Prod.mk.injEq] at h; rw [← h.1]; exact Ext.refl _ _
+  | some fc =>
+    simp only [hc] at h
+    obtain ⟨fw, _, h⟩ := lift_bind_eq_ok.1 h
+    by_cases hs : fw.stealInput = true
+    · simp only [hs, if_true] at h; exact hrec _ _ _ _ h
+    · simp only [hs, Bool.false_eq_true, if_false, out_pure, Out.ok.injEq, Prod.mk.injEq] at h
+      rw [← h.1]; exact Ext.refl _ _
+
+theorem keyFocus_ext {P : LogItem → Prop} {ev : Ev} {rec : KeyRec} (hrec : KeyRecExt P ev rec) {st st' : St}
+    {win : WinTree.Id} {d : Bool} (h : keyFocus rec st win ev = Out.ok (st', d)) : Ext P st st' := by
+  unfold keyFocus at h
+  obtain ⟨w, _, h⟩ := lift_bind_eq_ok.1 h
+  cases hc : w.focusedChild with
+  | none => simp only [hc, out_pure, Out.ok.injEq, Prod.mk.injEq] at h; rw [← h.1]; exact Ext.refl _ _
+  | some fc => simp only [hc] at h; exact hrec _ _ _ _ h
+
+theorem keyOwn_ext {cfg : Cfg} {P : LogItem → Prop} {ev : Ev} (hp : Routed cfg .key ev P) {st st' : St}
+    {win : WinTree.Id} {d : Bool} (h : keyOwn cfg st win ev = Out.ok (st', d)) : Ext P st st' := by
+  unfold keyOwn at h
+  obtain ⟨own, hown, h⟩ := lift_bind_eq_ok.1 h
+  cases own with
+  | false => simp only [Bool.false_eq_true, if_false, out_pure, Out.ok.injEq, Prod.mk.injEq] at h; rw [← h.1]; exact Ext.refl _ _
+  | true =>
+    simp only [if_true] at h
+    exact ownHandlers_ext hp (sameKind.rfl' ev) hown rfl (lift_eq_ok.1 h)
+
+theorem keySnap_ext {P : LogItem → Prop} {ev : Ev} {rec : KeyRec} (hrec : KeyRecExt P ev rec) (win : WinTree.Id) :
+    ∀ (cs : List WinTree.Id) (st st' : St) (d : Bool), keySnap rec st win cs ev = Out.ok (st', d) → Ext P st st' := by
+  intro cs
+  induction cs with
+  | nil => intro st st' d h; simp only [keySnap, out_pure, Out.ok.injEq, Prod.mk.injEq] at h; rw [← h.1]; exact Ext.refl _ _
+  | cons c rest ih =>
+    intro st st' d h
+    simp only [keySnap] at h
+    obtain ⟨cw, _, h⟩ := lift_bind_eq_ok.1 h
+    by_cases hp : cw.parent ≠ some win
+    · rw [if_pos hp] at h; exact ih _ _ _ h
+    · rw [if_neg hp] at h
+      obtain ⟨w, _, h⟩ := lift_bind_eq_ok.1 h
+      by_cases hf : w.focusedChild = some c
+      · simp only [hf, if_true] at h; exact ih _ _ _ h
+      · simp only [hf, if_false] at h
+        obtain ⟨⟨st1, d1⟩, hr, h⟩ := out_bind_eq_ok.1 h
+        have e1 := hrec _ _ _ _ hr
+        cases d1 with
+        | true => simp only [if_true, out_pure, Out.ok.injEq, Prod.mk.injEq] at h; rw [← h.1]; exact e1
+        | false => simp only [Bool.false_eq_true, if_false] at h; exact e1.trans (ih _ _ _ h)
+
+theorem keyLoop_ext {P : LogItem → Prop} {ev : Ev} {rec : KeyRec} (hrec : KeyRecExt P ev rec) (win : WinTree.Id) :
+    ∀ (f : Nat) (child : Option WinTree.Id) (st st' : St) (d : Bool),
+      keyLoop rec f st win child ev = Out.ok (st', d) → Ext P st st' := by
+  intro f
+  induction f with
+  | zero =>
+    intro child st st' d h
+    cases child with
+    | none => simp only [keyLoop, out_pure, Out.ok.injEq, Prod.mk.injEq] at h; rw [← h.1]; exact Ext.refl _ _
+    | some c => simp [keyLoop] at h
+  | succ f ih =>
+    intro child st st' d h
+    cases child with
+    | none => simp only [keyLoop, out_pure, Out.ok.injEq, Prod.mk.injEq] at h; rw [← h.1]; exact Ext.refl _ _
+    | some c =>
+      simp only [keyLoop] at h
+      by_cases hal : (!isAlive st.tree c) = true
+      · simp [hal] at h
+      rw [if_neg hal] at h
+      obtain ⟨next, _, h⟩ := lift_bind_eq_ok.1 h
+      obtain ⟨w, _, h⟩ := lift_bind_eq_ok.1 h
+      by_cases hf : w.focusedChild = some c
+      · simp only [hf, if_true] at h; exact ih _ _ _ _ h
+      · simp only [hf, if_false] at h
+        obtain ⟨⟨st1, d1⟩, hr, h⟩ := out_bind_eq_ok.1 h
+        have e1 := hrec _ _ _ _ hr
+        cases d1 with
+        | true => simp only [if_true, out_pure, Out.ok.injEq, Prod.mk.injEq] at h; rw [← h.1]; exact e1
+        | false => simp only [Bool.false_eq_true, if_false] at h; exact e1.trans (ih _ _ _ _ h)
+
+theorem keyChildren_ext {cfg : Cfg} {P : LogItem → Prop} {ev : Ev} (hq : Quiet P) {rec : KeyRec}
+    (hrec : KeyRecExt P ev rec) {fuel : Nat} {st st' : St} {win : WinTree.Id} {d : Bool}
+    (h : keyChildren cfg rec fuel st win ev = Out.ok (st', d)) : Ext P st st' := by
+  unfold keyChildren at h
+  obtain ⟨w, _, h⟩ := lift_bind_eq_ok.1 h
+  by_cases hs : cfg.snapshot = true
+  · simp only [hs, if_true] at h
+    obtain ⟨st4, h4, h⟩ := lift_bind_eq_ok.1 h
+    obtain ⟨⟨st5, d5⟩, h5, h⟩ := out_bind_eq_ok.1 h
+    obtain ⟨st6, h6, h⟩ := lift_bind_eq_ok.1 h
+    simp only [out_pure, Out.ok.injEq, Prod.mk.injEq] at h
+    rw [← h.1]
+    exact ((refAll_ext _ _ _ h4).trans (keySnap_ext hrec win _ _ _ _ h5)).trans (unrefAll_ext hq _ _ _ h6)
+  · simp only [hs, Bool.false_eq_true, if_false] at h
+    exact keyLoop_ext hrec win _ _ _ _ _ h
+
+theorem handleKeyBody_ext {cfg : Cfg} {P : LogItem → Prop} {ev : Ev} (hp : Routed cfg .key ev P) {rec : KeyRec}
+    (hrec : KeyRecExt P ev rec) (fuel : Nat) : KeyRecExt P ev (handleKeyBody cfg rec fuel) := by
+  intro st win st' d h
+  unfold handleKeyBody at h
+  obtain ⟨vis, _, h⟩ := lift_bind_eq_ok.1 h
+  cases vis with
+  | false => simp only [Bool.not_false, if_true, out_pure, Out.ok.injEq, Prod.mk.injEq] at h; rw [← h.1]; exact Ext.refl _ _
+  | true =>
+    simp only [Bool.not_true, Bool.false_eq_true, if_false] at h
+    obtain ⟨st1, h1, h⟩ := lift_bind_eq_ok.1 h
+    obtain ⟨⟨st5, d5⟩, h5, h⟩ := out_bind_eq_ok.1 h
+    obtain ⟨hu, _⟩ := keyDone_ok h
+    refine ((refWin_ext h1).trans ?_).trans (unrefLogged_ext hp.toQuiet hu)
+    refine firstClaim_ext h5 (fun _ _ e => keySteal_ext hrec e) fun stA hA => ?_
+    refine firstClaim_ext hA (fun _ _ e => keyFocus_ext hrec e) fun stB hB => ?_
+    refine firstClaim_ext hB (fun _ _ e => keyOwn_ext hp e) fun stC hC => ?_
+    exact keyChildren_ext hp.toQuiet hrec hC
+
+/-- Everything `_handle_key` logs satisfies `P` — for every variant of the code, whatever the handlers do. -/
+theorem handleKey_ext {cfg : Cfg} {P : LogItem → Prop} {ev : Ev} (hp : Routed cfg .key ev P) :
+    ∀ (f : Nat), KeyRecExt P ev (handleKey cfg f) := by
+  intro f
+  induction f with
+  | zero => intro st c st' d h; simp [handleKey] at h
+  | succ f ih => exact handleKeyBody_ext hp ih f
+
+/-! #### mouse -/
+
+def MouseRecExt (P : LogItem → Prop) (ev : Ev) (rec : MouseRec) : Prop :=
+  ∀ (st : St) (c : WinTree.Id) (e : Ev) (st' : St) (r : Option WinTree.Id), sameKind ev e →
+    rec st c e = Out.ok (st', r) → Ext P st st'
+
+theorem mouseSnap_ext {P : LogItem → Prop} {ev : Ev} {rec : MouseRec} (hrec : MouseRecExt P ev rec) (win : WinTree.Id) :
+    ∀ (cs : List WinTree.Id) (st st' : St) (e : Ev) (r : Option WinTree.Id), sameKind ev e →
+      mouseSnap rec st win cs e = Out.ok (st', r) → Ext P st st' := by
+  intro cs
+  induction cs with
+  | nil => intro st st' e r _ h; simp only [mouseSnap, out_pure, Out.ok.injEq, Prod.mk.injEq] at h; rw [← h.1]; exact Ext.refl _ _
+  | cons c rest ih =>
+    intro st st' e r he h
+    simp only [mouseSnap] at h
+    obtain ⟨cw, _, h⟩ := lift_bind_eq_ok.1 h
+    by_cases hp : cw.parent ≠ some win
+    · rw [if_pos hp] at h; exact ih _ _ _ _ he h
+    · rw [if_neg hp] at h
+      by_cases hskip : (!cw.stealInput && outsideChild cw e.line e.col) = true
+      · simp only [hskip, if_true] at h; exact ih _ _ _ _ he h
+      · simp only [hskip, if_false] at h
+        obtain ⟨⟨st1, r1⟩, hr, h⟩ := out_bind_eq_ok.1 h
+        have e1 := hrec _ _ _ _ _ (he.toChild cw) hr
+        cases r1 with
+        | some hh => simp only [out_pure, Out.ok.injEq, Prod.mk.injEq] at h; rw [← h.1]; exact e1
+        | none => simp only at h; exact e1.trans (ih _ _ _ _ he h)
+
+theorem mouseLoop_ext {P : LogItem → Prop} {ev : Ev} {rec : MouseRec} (hrec : MouseRecExt P ev rec) :
+    ∀ (f : Nat) (child : Option WinTree.Id) (st st' : St) (e : Ev) (r : Option WinTree.Id), sameKind ev e →
+      mouseLoop rec f st child e = Out.ok (st', r) → Ext P st st' := by
+  intro f
+  induction f with
+  | zero =>
+    intro child st st' e r _ h
+    cases child with
+    | none => simp only [mouseLoop, out_pure, Out.ok.injEq, Prod.mk.injEq] at h; rw [← h.1]; exact Ext.refl _ _
+    | some c => simp [mouseLoop] at h
+  | succ f ih =>
+    intro child st st' e r he h
+    cases child with
+    | none => simp only [mouseLoop, out_pure, Out.ok.injEq, Prod.mk.injEq] at h; rw [← h.1]; exact Ext.refl _ _
+    | some c =>
+      simp only [mouseLoop] at h
+      by_cases hal : (!isAlive st.tree c) = true
+      · simp [hal] at h
+      rw [if_neg hal] at h
+      obtain ⟨next, _, h⟩ := lift_bind_eq_ok.1 h
+      obtain ⟨cw, _, h⟩ := lift_bind_eq_ok.1 h
+      by_cases hskip : (!cw.stealInput && outsideChild cw e.line e.col) = true
+      · simp only [hskip, if_true] at h; exact ih _ _ _ _ _ he h
+      · simp only [hskip, if_false] at h
+        obtain ⟨⟨st1, r1⟩, hr, h⟩ := out_bind_eq_ok.1 h
+        have e1 := hrec _ _ _ _ _ (he.toChild cw) hr
+        cases r1 with
+        | some hh => simp only [out_pure, Out.ok.injEq, Prod.mk.injEq] at h; rw [← h.1]; exact e1
+        | none => simp only at h; exact e1.trans (ih _ _ _ _ _ he h)
+
+theorem mouseChildren_ext {cfg : Cfg} {P : LogItem → Prop} {ev e : Ev} (hq : Quiet P) {rec : MouseRec}
+    (hrec : MouseRecExt P ev rec) (he : sameKind ev e) {fuel : Nat} {st st' : St} {win : WinTree.Id}
+    {r : Option WinTree.Id} (h : mouseChildren cfg rec fuel st win e = Out.ok (st', r)) : Ext P st st' := by
+  unfold mouseChildren at h
+  obtain ⟨w, _, h⟩ := lift_bind_eq_ok.1 h
+  by_cases hs : cfg.snapshot = true
+  · simp only [hs, if_true] at h
+    obtain ⟨st4, h4, h⟩ := lift_bind_eq_ok.1 h
+    obtain ⟨⟨st5, r5⟩, h5, h⟩ := out_bind_eq_ok.1 h
+    obtain ⟨st6, h6, h⟩ := lift_bind_eq_ok.1 h
+    simp only [out_pure, Out.ok.injEq, Prod.mk.injEq] at h
+    rw [← h.1]
+    exact ((refAll_ext _ _ _ h4).trans (mouseSnap_ext hrec win _ _ _ _ _ he h5)).trans (unrefAll_ext hq _ _ _ h6)
+  · simp only [hs, Bool.false_eq_true, if_false] at h
+    exact mouseLoop_ext hrec _ _ _ _ _ _ he h
+
+theorem mouseOwn_ext {cfg : Cfg} {P : LogItem → Prop} {ev e : Ev} (hp : Routed cfg .mouse ev P) (he : sameKind ev e)
+    {st st' : St} {win : WinTree.Id} {r : Option WinTree.Id} (h : mouseOwn cfg st win e = Out.ok (st', r)) :
+    Ext P st st' := by
+  unfold mouseOwn at h
+  obtain ⟨own, hown, h⟩ := lift_bind_eq_ok.1 h
+  cases own with
+  | false => simp only [Bool.not_false, if_true, out_pure, Out.ok.injEq, Prod.mk.injEq] at h; rw [← h.1]; exact Ext.refl _ _
+  | true =>
+    simp only [Bool.not_true, Bool.false_eq_true, if_false] at h
+    obtain ⟨⟨st1, d1⟩, h1, h⟩ := lift_bind_eq_ok.1 h
+    have e1 : Ext P st st1 := ownHandlers_ext hp he hown rfl h1
+    cases d1 with
+    | false => simp only [Bool.not_false, if_true, out_pure, Out.ok.injEq, Prod.mk.injEq] at h; rw [← h.1]; exact e1
+    | true =>
+      simp only [Bool.not_true, Bool.false_eq_true, if_false] at h
+      obtain ⟨st2, h2, h⟩ := lift_bind_eq_ok.1 h
+      simp only [out_pure, Out.ok.injEq, Prod.mk.injEq] at h
+      rw [← h.1]
+      by_cases hc : cfg.counted = true
+      · simp only [hc, if_true] at h2; exact e1.trans (refWin_ext h2)
+      · simp only [hc, Bool.false_eq_true, if_false, res_pure, Res.ok.injEq] at h2; rw [← h2]; exact e1
+
+theorem handleMouseBody_ext {cfg : Cfg} {P : LogItem → Prop} {ev : Ev} (hp : Routed cfg .mouse ev P) {rec : MouseRec}
+    (hrec : MouseRecExt P ev rec) (fuel : Nat) : MouseRecExt P ev (handleMouseBody cfg rec fuel) := by
+  intro st win e st' r he h
+  unfold handleMouseBody at h
+  obtain ⟨vis, _, h⟩ := lift_bind_eq_ok.1 h
+  cases vis with
+  | false => simp only [Bool.not_false, if_true, out_pure, Out.ok.injEq, Prod.mk.injEq] at h; rw [← h.1]; exact Ext.refl _ _
+  | true =>
+    simp only [Bool.not_true, Bool.false_eq_true, if_false] at h
+    obtain ⟨st1, h1, h⟩ := lift_bind_eq_ok.1 h
+    obtain ⟨⟨st2, r2⟩, h2, h⟩ := out_bind_eq_ok.1 h
+    obtain ⟨⟨st3, r3⟩, h3, h⟩ := out_bind_eq_ok.1 h
+    unfold mouseDone at h
+    obtain ⟨w3, _, h⟩ := lift_bind_eq_ok.1 h
+    obtain ⟨st4, hu, h⟩ := lift_bind_eq_ok.1 h
+    simp only [out_pure, Out.ok.injEq, Prod.mk.injEq] at h
+    rw [← h.1]
+    have e3 : Ext P st2 st3 := by
+      unfold mouseSelf at h3
+      cases r2 with
+      | some hh => simp only [out_pure, Out.ok.injEq, Prod.mk.injEq] at h3; rw [← h3.1]; exact Ext.refl _ _
+      | none => exact mouseOwn_ext hp he h3
+    exact (((refWin_ext h1).trans (mouseChildren_ext hp.toQuiet hrec he h2)).trans e3).trans (unrefLogged_ext hp.toQuiet hu)
+
+/-- Everything `_handle_mouse` logs satisfies `P` — for every variant of the code, whatever the handlers do. -/
+theorem handleMouse_ext {cfg : Cfg} {P : LogItem → Prop} {ev : Ev} (hp : Routed cfg .mouse ev P) :
+    ∀ (f : Nat), MouseRecExt P ev (handleMouse cfg f) := by
+  intro f
+  induction f with
+  | zero => intro st c e st' r _ h; simp [handleMouse] at h
+  | succ f ih => exact handleMouseBody_ext hp ih f
 
 end WinInput
 end Tickit
